@@ -577,6 +577,19 @@ fn check_cli(c: &Case, o: &CliOpts, ct: &str, ft: Option<&str>, ctx: &mut Ctx) -
     if args.iter().any(|a| a.contains('\0')) {
         return Ok(());
     }
+    // thorough tier: the same invocation also through the release-profile binary (panic = "abort")
+    if let Some(rel) = release_cli_path() {
+        let rr = run_bin(&rel, &args, &files, std::time::Duration::from_secs(30)).map_err(|x| Failure::new("harness", x))?;
+        let res = (|| -> CheckResult {
+            ensure!(!rr.timed_out, "cli_hang", "release build: cteepbd {:?} did not terminate: {}", args, rr.summary());
+            ensure!(rr.signal.is_none(), "cli_signal", "release build: cteepbd {:?} ended by a signal: {}", args, rr.summary());
+            ensure!(matches!(rr.status, Some(0 | 1 | 64 | 65 | 73 | 74)), "cli_status", "release build: cteepbd {:?} ended with the undocumented status {:?}: {}", args, rr.status, rr.summary());
+            Ok(())
+        })();
+        rr.cleanup();
+        res?;
+        ctx.label("cli_release_run");
+    }
     let run = run_cli_checked(&args, &files).map_err(|x| Failure::new("harness", x))?;
     let r = (|| -> CheckResult {
         ensure!(!run.timed_out, "cli_hang", "cteepbd {:?} did not terminate: {}", args, run.summary());
